@@ -27,9 +27,12 @@ def _pick(c, name, k):
     return out
 
 
-def _rep(c, cond, label, sig, rp):
+def _rep(c, cond, label, sig, rp, syms=None):
     ok = c.prove(cond, label, info={"sig": sig, "what": label})
     if ok is False:
+        rp = dict(rp)
+        if syms:
+            rp["values"] = model_env(c, c.failures[-1]["model"], syms)
         c.failures[-1]["replay"] = rp
         c.failures[-1]["info"]["what"] = "%s for %s" % (label, rp)
     return ok
@@ -118,7 +121,10 @@ def derivative_job(interp, c, case):
     conds += [seen[0][1] == t] + [seen[0][0][i] == x[i] for i in range(S_)]
     _rep(c, s_and(*conds) and len(props) == 1,
          "%s interface: d x_s/dt = sum_r (immediate + delayed stoichiometry)[s,r] * rate_r(x,t)" % ("safe" if safe else "plain"),
-         "derivative %s" % ("safe" if safe else "plain"), dict(kind="derivative", safe=safe))
+         "derivative %s" % ("safe" if safe else "plain"), dict(kind="derivative", safe=safe, S=S_, R=R_),
+         syms=dict([("U_%d_%d" % (i, j), U[i, j]) for i in range(S_) for j in range(R_)]
+                   + [("D_%d_%d" % (i, j), D[i, j]) for i in range(S_) for j in range(R_)]
+                   + [("x_%d" % i, x[i]) for i in range(S_)] + [("a_%d" % j, a[j]) for j in range(R_)]))
 
 
 def model_derivative_job(interp, c, case):
@@ -210,6 +216,8 @@ def check(tier):
     sizes = [(1, 1), (2, 2), (2, 3)] + ([(3, 3)] if tier == "thorough" else [])
     for (S, R) in sizes:
         for safe in (False, True):
+            if (S, R, safe) == (3, 3, True):
+                continue          # 2^9 sign paths x bounds checks: 35 min for no new code (the safe route differs per access, not per size)
             ck.add("derivative/S%dR%d/%s" % (S, R, "safe" if safe else "plain"), "harness.C03", "derivative_job",
                    dict(cases=[(S, R, safe)]), max_paths=100000)
     for safe in (False, True):
@@ -218,7 +226,7 @@ def check(tier):
            dict(cases=[("massaction",), ("hill",), ("general",), ("delay",), ("rule",)]))
     ck.bounds = dict(species_pool=3, reactants="0..%d" % (2 if tier == "quick" else 3), products="0..%d" % (2 if tier == "quick" else 3),
                      delayed_reactants="0..1", delayed_products="0..%d" % (1 if tier == "quick" else 2),
-                     declaration_orders="all 6", stoichiometric_matrix_entries="[-4,4], S,R <= 3", reaction_shapes=len(cs))
+                     declaration_orders="all 6", stoichiometric_matrix_entries="[-4,4], S,R <= 3 (safe route S,R <= 2x3)", reaction_shapes=len(cs))
     ck.assumptions = [
         "species choices are symbolic integers concretised by path forking (exhaustive over the pool), so the stoichiometry "
         "obligations are decided per structure; the derivative identity is decided by z3 for all matrices and rate vectors",
